@@ -7,7 +7,8 @@ for d in seeded/*/; do
   m=$(basename $d); id=${m%%-*}
   [ -s $d/patch.diff ] || continue
   git -C /repo apply /verif/$d/patch.diff 2>/dev/null || { echo "$m patch does not apply"; continue; }
-  out=$(./check $id --tier quick 2>&1); rc=$?
+  # (a change may name the check and tier that report it: seeded/<m>/check_override holds the arguments of ./check)
+  if [ -s $d/check_override ]; then out=$(./check $(cat $d/check_override) 2>&1); rc=$?; else out=$(./check $id --tier quick 2>&1); rc=$?; fi
   git -C /repo checkout -- .
   n=$(echo "$out" | grep -c "^VIOLATION")
   cls=$(echo "$out" | grep "  class:" | head -1 | sed 's/  class: //')
